@@ -116,7 +116,10 @@ fn sampled(rng: &mut Rng, w: &Workload, reference: &RunResult, f: Flavor, label:
         2 => ref_steps,
         _ => ref_steps * 2,
     };
-    let bound = 20 * ref_steps * (tasks + 1) + 10_000;
+    // generous on purpose: twenty times the reference work per task, plus what busy-waiting
+    // tasks can burn while another task's host call waits for the end of a slice
+    let host_calls = reference.observed.host_calls.len() as u64;
+    let bound = 20 * ref_steps * (tasks + 1) + 10_000 + 4 * (host_calls + 4) * w.neutral_budget().min(65_536) as u64;
     let (step_cap, liveness_due) = if window == u64::MAX {
         (60 * ref_steps * (tasks + 1) + 200_000, false)
     } else {
@@ -129,6 +132,7 @@ fn sampled(rng: &mut Rng, w: &Workload, reference: &RunResult, f: Flavor, label:
         stall_main_only: f.stall_main_only,
         gc: sample_gc(rng, f.gc_stress),
         fault_window: window,
+        neutral: w.neutral_budget(),
     };
     RunSpec {
         mode: Mode::Normal,
@@ -168,6 +172,7 @@ fn base(budget: Budget, gc: GcTemplate) -> Personality {
         stall_main_only: false,
         gc,
         fault_window: u64::MAX,
+        neutral: 4096,
     }
 }
 
@@ -417,6 +422,7 @@ pub fn runs(
                         stall_main_only: false,
                         gc: GcTemplate::Default,
                         fault_window: u64::MAX,
+                        neutral: w.neutral_budget(),
                     };
                     let mut sp = fixed(personality, reference, "bounded-heap-at-n-and-4n", 0);
                     sp.mode = Mode::Bounded { n };
